@@ -358,6 +358,10 @@ def judge(cfg, real, u):
     w = u.w
     if w.outcome is not None and w.outcome[0] in ("error", "crash"):
         fails.append(("unexpected exception in the master: %r" % (w.outcome,), None))
+    if L.SHUTDOWNS:
+        fails.append(("the master called shutdown() on listening socket(s) %r: the open file description is shared with the other master "
+                      "of the upgrade and with the workers, so nobody can accept on it any more" % (L.SHUTDOWNS[:3],), None))
+        del L.SHUTDOWNS[:]
     slots = {"A": 0, "B": 6}
     r0 = slots[real]
     s0 = 6 - r0
